@@ -162,6 +162,49 @@ def dh_case(I, life, k, fp, demand):
             'nontrivial': (life, k, r[0])}
 
 
+COEF_ORDER = ['C01', 'C11', 'C21', 'D01', 'D11', 'D21', 'C02', 'C12', 'C22', 'D02', 'D12', 'D22']
+PLANT_FILES = {1: 'SurfacePlantSubcriticalORC.py', 2: 'SurfacePlantSupercriticalORC.py', 3: 'SurfacePlantSingleFlash.py',
+               4: 'SurfacePlantDoubleFlash.py'}
+_LOGSTUB = types.SimpleNamespace(logger=types.SimpleNamespace(warning=lambda *a, **k: None, info=lambda *a, **k: None))
+
+
+def reinj_case(I, amb, tinj, coefs, tpp, plant=None):
+    """reinjection_temperature on explicit coefficients (plant=None: compared with the generic model; plant=code: the
+    coefficients were read from that plant's Calculate and the model uses ITS OWN table)"""
+    r = _call(lambda: I.SP.reinjection_temperature(None, _LOGSTUB, float(amb), _arr(I, tpp), float(tinj), *[float(c) for c in coefs]))
+    desc = {'fn': 'reinjection_temperature', 'amb': float(amb), 'tinj': float(tinj), 'coefs': [float(c) for c in coefs],
+            'tpp': list(map(float, tpp)), 'plant': plant}
+    if plant is None:
+        flat = [_dq(amb), _dq(tinj)] + [_dq(c) for c in coefs] + [_dq(x) for x in tpp]
+        return {'flat': flat, 'impl': r, 'fn': 'reinj', 'desc': desc, 'nontrivial': ('generic', amb < 15, r[0], min(len(tpp), 3))}
+    if r[0] == 'V':
+        r = ('V', r[1][1:])     # the plant-table model returns ReinjTemp ++ etau (Tinj' is covered by the generic cases)
+    return {'flat': [F(plant), _dq(amb)] + [_dq(x) for x in tpp], 'impl': r, 'fn': 'plantcorr', 'desc': desc,
+            'nontrivial': (plant, amb < 15)}
+
+
+def source_coeffs():
+    """{plant code: (low bracket, high bracket)} each a list in COEF_ORDER, read from the `if ambient_temperature < 15.` of the four
+    Calculate methods; None when the source no longer has that shape (the snapshot clause still ties the tables then)."""
+    import ast
+    out = {}
+    try:
+        for code, fname in PLANT_FILES.items():
+            tree = ast.parse((fw.SRC / 'geophires_x' / fname).read_text())
+            ifs = [n for n in ast.walk(tree) if isinstance(n, ast.If) and 'ambient_temperature' in ast.unparse(n.test)
+                   and ast.unparse(n.test).replace(' ', '').endswith('<15.0')]
+            if len(ifs) != 1:
+                return None
+            br = []
+            for body in (ifs[0].body, ifs[0].orelse):
+                d = {st.targets[0].id: float(ast.literal_eval(st.value)) for st in body}
+                br.append([d[k] for k in COEF_ORDER])
+            out[code] = tuple(br)
+    except Exception:
+        return None
+    return out
+
+
 def _demand(rnd, base, amp):
     """seasonal daily demand [MWh/day], short decimals"""
     return [round(24 * max(0.0, base + amp * math.cos(2 * math.pi * j / 365) + rnd.uniform(-0.5, 0.5)), 2) for j in range(365)]
@@ -214,6 +257,23 @@ def helper_cases(ctx):
         cases.append(ehp_case(I, code, rnd.randint(1, 5), round(fl(20, 110), 1), round(fl(3900, 4300), 2), round(fl(30, 80), 1),
                               round(fl(90, 150), 1), round(fl(0.5, 0.95), 2), round(fl(0.1, 0.9), 2), avail, series(n, 0.05, 0.2),
                               series(n, 120, 300), series(nr, 60, 95)))
+    # reinjection_temperature: random coefficients, both brackets, the Tinj update in both directions, empty series
+    for idx in range(ctx.n(120, 2000)):
+        amb = rnd.choice([-5, 0, 5, 10, 14.9, 15, 15.1, 20, 25, 30, round(fl(0, 30), 1)])
+        n = rnd.choice([1, 2, 3, 6]) if idx else 0
+        coefs = [float('%.4g' % fl(-0.2, 0.4)), float('%.4g' % fl(0.001, 0.01)), float('%.3g' % fl(-2e-5, 2e-5))] * 2 + \
+                [round(fl(-10, 70), 2), round(fl(0.01, 0.8), 4), float('%.4g' % fl(-1.2e-3, 0))] * 2
+        coefs[3:6] = [float('%.4g' % fl(-0.2, 0.4)), float('%.4g' % fl(0.001, 0.01)), float('%.3g' % fl(-2e-5, 2e-5))]
+        coefs[9:12] = [round(fl(-10, 70), 2), round(fl(0.01, 0.8), 4), float('%.4g' % fl(-1.2e-3, 0))]
+        cases.append(reinj_case(I, amb, rnd.choice([30, 50, 70, 90, 150]), coefs, series(n, 90, 320)))
+    # the four plants' coefficient tables as they stand in the source against the model's tables
+    src = source_coeffs()
+    if src is None:
+        ctx.note('the ambient-temperature bracket tables could not be read from the plant sources; tables tied by snapshots only')
+    else:
+        for code, (low, high) in sorted(src.items()):
+            for amb in [0, 5, 10, 14.9, 15, 15.1, 20, 25, 32] + [round(fl(0, 30), 1) for _ in range(ctx.n(3, 20))]:
+                cases.append(reinj_case(I, amb, -1000.0, low if amb < 15 else high, series(4, 90, 330), plant=code))
     # district heating day-by-day split
     for idx in range(ctx.n(10, 120)):
         life, k = rnd.choice([1, 2, 3]), rnd.choice([1, 2, 4, 12])
@@ -230,30 +290,42 @@ def helper_cases(ctx):
 
 
 HELPER_PARTS = [('integrate', 'run_integrate'), ('annual', 'run_annual_epp'), ('remaining', 'run_remaining'),
-                ('ehp', 'run_ehp'), ('dh', 'run_dh')]
+                ('ehp', 'run_ehp'), ('dh', 'run_dh'), ('reinj', 'run_reinj'), ('plantcorr', 'run_plant_corr')]
 HELPER_WHAT = {
     'integrate': 'integrate_time_series_slice is not the trapezoid integral x utilization proved of the model (C02_integral)',
     'annual': 'annual_electricity_pumping_power does not integrate the corresponding power series (C02_annual_figures)',
     'remaining': 'remaining_reservoir_heat_content is not initial - 3.6e-9 x cumulative extracted heat (C02_remaining)',
     'ehp': 'electricity_heat_production breaks the per-step balance proved of the model (C02_conservation)',
     'dh': 'calc_util_factor breaks the district-heating supply split proved of the model (C02_dh)',
+    'reinj': 'reinjection_temperature is not the blended correlation / injection-temperature update of the model (C02_tinj_update)',
+    'plantcorr': 'the efficiency / reinjection correlation table of a power-plant type differs from the model (C02_corr_continuous)',
 }
 
 
 def _helper_key(c):
     d = c['desc']
     extra = {'integrate': lambda: c['shape'], 'annual': lambda: 'enduse=%s' % d['enduse'], 'remaining': lambda: 'n=%d' % len(d['kwh']),
-             'ehp': lambda: 'enduse=%s' % d['enduse'], 'dh': lambda: 'k=%s' % d['k']}[c['fn']]()
+             'ehp': lambda: 'enduse=%s' % d['enduse'], 'dh': lambda: 'k=%s' % d['k'],
+             'reinj': lambda: 'low' if d['amb'] < 15 else 'high',
+             'plantcorr': lambda: 'plant=%s:%s' % (d['plant'], 'low' if d['amb'] < 15 else 'high')}[c['fn']]()
     return 'helper:%s:%s' % (d['fn'], extra)
 
 
 def run_helpers(ctx, cases):
+    from concurrent.futures import ThreadPoolExecutor
+    jobs = []
     for fn, run in HELPER_PARTS:
         for regime, tol in (('exact', F(0)), ('float', TOL)):
             sel = [c for c in cases if c['fn'] == fn and c['desc'].get('regime', 'float') == regime]
             if sel:
-                fastlit.run(ctx, f'{fn}-{regime}', REQ, run, tol, sel, kind='property', key_of=_helper_key, what=HELPER_WHAT[fn],
-                            shard=1 if fn == 'dh' else 40)
+                jobs.append((fn, run, regime, tol, sel, 1 if fn == 'dh' else 40))
+    # the parts are evaluated concurrently (each is a handful of coqc shards); the accounting stays in a fixed order
+    with ThreadPoolExecutor(max_workers=4) as ex:
+        verdicts = list(ex.map(lambda j: fastlit.kernel_cases(ctx, f'{j[0]}-{j[2]}', REQ, j[1], j[3],
+                                                               [(c['flat'], flatcorr.res_of(c['impl'])) for c in j[4]], j[5]), jobs))
+    for (fn, run, regime, tol, sel, shard), failing in zip(jobs, verdicts):
+        fastlit.run(ctx, f'{fn}-{regime}', REQ, run, tol, sel, kind='property', key_of=_helper_key, what=HELPER_WHAT[fn],
+                    shard=shard, failing=failing)
     errs = [c['fn'] for c in cases if c['impl'][0] == 'E']
     ctx.count('helper-errors', error_cases={fn: errs.count(fn) for fn in set(errs)})
 
@@ -283,6 +355,8 @@ CLAUSE_WHAT = {
     'annual-cooling': 'cooling_kWh_Produced[y] != integral of cooling_produced over year y x utilization',
     'annual-heat-zero': 'HeatkWhProduced is not zero for a pure electricity plant',
     'remaining': 'RemainingReservoirHeatContent[y] != initial - 3.6e-9 x cumulative HeatkWhExtracted',
+    'power-plant': 'TenteringPP / injection temperature / ElectricityProduced / HeatExtracted / HeatProduced != the power-plant model '
+                   '(etau and ReinjTemp correlations x availability x flow; topping split at the modelled ReinjTemp)',
 }
 
 
@@ -382,6 +456,11 @@ def run_terms(snap):
             R.clause('annual-heat-zero', f'check_zero {heatkwh}')
         else:
             R.clause('annual-heat', ann(hp, offh, heatkwh))
+        R.clause('power-plant',
+                 f'match plant_of_code {int(R.sp("plant_type")["int"])}%Z, enduse_of_code {eu}%Z with Some p, Some e => '
+                 f'check_power_plant {T} p e {q(R.sp("ambient_temperature"))} {R.series("avail", R.sp("Availability"))} {q(n)} {q(m)} {q(cp)} '
+                 f'{tprod} {q(tinj)} {q(R.sp("T_chp_bottom"))} {q(eff)} {q(R.sp("chp_fraction"))} {R.series("tpp", R.sp("TenteringPP"))} '
+                 f'{el} {he} {hp} | _, _ => false end')
         if eu in (41, 42):
             R.clause('bottoming', f'check_bottoming {T} {q(eff)} {q(n)} {q(m)} {q(cp)} {q(R.sp("T_chp_bottom"))} {tprod} {hp}')
         if eu in (51, 52):
@@ -582,6 +661,9 @@ def replay(ctx, data):
     elif fn == 'electricity_heat_production':
         c, run = ehp_case(I, d['enduse'], d['nprod'], d['flow'], d['cp'], d['tinj'], d['tchp'], d['eff'], d['chpf'], d['avail'],
                           d['etau'], d['tprod'], d['reinj']), 'run_ehp'
+    elif fn == 'reinjection_temperature':
+        c = reinj_case(I, d['amb'], d['tinj'], d['coefs'], d['tpp'], plant=d['plant'])
+        run = 'run_reinj' if d['plant'] is None else 'run_plant_corr'
     else:
         c, run = dh_case(I, d['life'], d['k'], d['heat_produced'], d['daily_demand']), 'run_dh'
     tol = F(0) if d.get('regime') == 'exact' else TOL
